@@ -380,3 +380,40 @@ def line_after_reassignment_answers_like_a_fresh_segment(c):
     c.ensures('length', ops.eq(c.callm(seg, 'length'), c.callm(fresh, 'length')))
     c.ensures('point', ops.eq(c.callm(seg, 'point', t), c.callm(fresh, 'point', t)))
     c.ensures('==', c.py_eq(seg, fresh))
+
+
+@contract('C16', 'path.Path.__hash__', params=[{'kinds': k, 'mutation': m} for k in ('L', 'LQ', 'CLQ')
+                                                for m in ('end=z', 'start=z', 'p[0]=A', 'p[-1]=A', 'append(A)', 'del p[0]', 'segment.end=z')
+                                                if not (k == 'L' and m == 'del p[0]')],
+          level='per-shape')
+def path_hash_after_a_mutation_is_that_of_a_fresh_path(c, kinds, mutation):
+    """hash is an observation like any other: requested, then the path changed, then requested
+    again, it is the hash of a newly built path of the current segments (same closed flag) -
+    whatever the class remembers from the first request."""
+    path, segs, pts = mkpath(c, kinds)
+    c.hash(path)
+    z = c.cplx('z')
+    A = new_seg(c, 'A', 'Q')
+    cur = list(segs)
+    if mutation == 'end=z':
+        c.set(path, 'end', z)
+    elif mutation == 'start=z':
+        c.set(path, 'start', z)
+    elif mutation == 'p[0]=A':
+        c.callm(path, '__setitem__', 0, A)
+        cur[0] = A
+    elif mutation == 'p[-1]=A':
+        c.callm(path, '__setitem__', -1, A)
+        cur[-1] = A
+    elif mutation == 'append(A)':
+        c.callm(path, 'append', A)
+        cur.append(A)
+    elif mutation == 'del p[0]':
+        c.callm(path, '__delitem__', 0)
+        cur = cur[1:]
+    else:
+        c.set(segs[-1], 'end', z)          # a segment changed behind the path's back
+    fresh = c.new('path.Path', *cur)
+    c.set(fresh, '_closed', c.get(path, '_closed'))
+    c.ensures('equal-to-the-fresh-path', c.py_eq(path, fresh))
+    c.ensures('hash(path)==hash(fresh-path-of-the-current-segments)', c.py_eq(c.hash(path), c.hash(fresh)))
